@@ -23,7 +23,7 @@ def extra(run, cases, oracle, tier):
     for ci, c in enumerate(cases, start=1):
         if oracle.get(ci) is None or ci > (3 if tier == "quick" else len(cases)):
             continue
-        rel, idx, F = GR.build_instance(c, oracle[ci], 4)
+        rel, idx, F = GR.build_instance(c, oracle[ci], 4, opts={"vacuum": True, "_noT": True} if c.get("vacuum") else None)
         at = (...,) + idx
         gam = rel["gammadown3"]
         gup = rel["gammaup3"]
